@@ -95,7 +95,8 @@ Definition statement_lines (z : sercfg) (cnt : N) (s : stmt) (is_last : bool) : 
       match all_some (map (target_element z (s_prop s)) (s_types s)) with
       | None => None
       | Some targets =>
-        let line := prop ++ gap ++ join (gap ++ Str "OR" ++ gap) targets ++ gap ++
+        let line := (if s_inv s then Str "^" ++ gap else []) ++ prop ++ gap ++
+                    join (gap ++ Str "OR" ++ gap) targets ++ gap ++
                     card_repr true (s_card s) ++ (if is_last then [] else Str ";") in
         Some ((indent 1 ++ line ++ Str (String (ascii_of_nat 10) EmptyString)) :: comments)
       end
